@@ -6,12 +6,16 @@ pub trait Suite {
 
 pub mod codec;
 pub mod dispatch;
+pub mod restart;
+pub mod snapfile;
 pub mod smutil;
 
 pub fn make(name: &str) -> Option<Box<dyn Suite>> {
     match name {
         "codec" => Some(Box::new(codec::Codec::new())),
         "dispatch" => Some(Box::new(dispatch::Dispatch::new())),
+        "restart" => Some(Box::new(restart::Restart::new())),
+        "snapfile" => Some(Box::new(snapfile::SnapFile::new())),
         _ => None,
     }
 }
